@@ -130,14 +130,15 @@ func fq(pkg, name string) string {
 func genCompileWL(t *rapid.T, maxFiles int, defects bool) CompileWL {
 	var kinds []int
 	if defects {
-		kinds = []int{0, 1, 2, 3, 4, 5, 6}
+		kinds = []int{0, 1, 2, 3, 4, 5, 6, 7}
 	}
 	return genCompileWLKinds(t, maxFiles, kinds)
 }
 
 // genCompileWLKinds is genCompileWL restricted to the given defect kinds
 // (0 syntax, 1 unresolvable type, 2 duplicate symbol, 3 duplicate extension
-// number, 4 missing import, 5 import cycle, 6 message vs package name).
+// number, 4 missing import, 5 import cycle, 6 message vs package name, 7 enum
+// value vs message or vs another enum's value across files).
 func genCompileWLKinds(t *rapid.T, maxFiles int, kinds []int) CompileWL {
 	defects := len(kinds) > 0
 	n := rapid.IntRange(2, maxFiles).Draw(t, "nfiles")
@@ -186,7 +187,7 @@ func genCompileWLKinds(t *rapid.T, maxFiles int, kinds []int) CompileWL {
 			}
 			df.hi = rapid.IntRange(df.k, n-1).Draw(t, "cycleTo")
 			switch df.kind {
-			case 2:
+			case 2, 7:
 				specs[df.o].pkg = specs[df.k].pkg
 			case 3:
 				if df.k == 0 || df.o == 0 || specs[0].syntax == "proto3" || specs[df.k].syntax == "proto3" || specs[df.o].syntax == "proto3" {
@@ -337,6 +338,15 @@ func genCompileWLKinds(t *rapid.T, maxFiles int, kinds []int) CompileWL {
 				}
 			}
 			wl.Defects = append(wl.Defects, fmt.Sprintf("import cycle %s <-> %s", s.name, specs[hi].name))
+		case 7:
+			// enum values live in the scope that encloses the enum
+			s.body = append(s.body, fmt.Sprintf("enum DupHolder%d {\n  DUPV = 0;\n}", k))
+			if df.hi%2 == 0 {
+				specs[o].body = append(specs[o].body, "message DUPV {\n}")
+			} else {
+				specs[o].body = append(specs[o].body, fmt.Sprintf("enum DupHolder%d {\n  DUPV = 0;\n}", o))
+			}
+			wl.Defects = append(wl.Defects, fmt.Sprintf("enum value DUPV of %s collides with a symbol of %s", s.name, specs[o].name))
 		case 6:
 			s.body = append(s.body, "message q {\n}")
 			wl.Defects = append(wl.Defects, fmt.Sprintf("message p.q in %s vs package p.q in %s", s.name, specs[(k+1)%n].name))
